@@ -451,6 +451,9 @@ func (x *c04Exec) userErrVal(tag int64) error {
 }
 
 func (x *c04Exec) userTag(err error) (int64, bool) {
+	if err == sql.ErrTxDone || err == gorm.ErrInvalidTransaction {
+		return 0, false // raw sentinels gorm / database/sql produce themselves: read as "txDone" / "invalidTx" on both sides (c04ModelRes)
+	}
 	for t, u := range x.userVals {
 		if c04Same(u, err) {
 			return t, true
@@ -1143,10 +1146,19 @@ func (x *c04Exec) errAtoms(err error) []interface{} {
 			}
 		}
 	}
-	if x.ek%c04NCommitErrKinds == 1 {
-		return out // the injected value IS sql.ErrTxDone: indistinguishable from a genuine one, both read "txDone" (see c04Runner.flush)
-	}
 	pieces := strings.Split(err.Error(), "; ")
+	switch ek := x.ek % c04NCommitErrKinds; {
+	case ek == 1:
+		return out // the injected value IS sql.ErrTxDone: indistinguishable from a genuine one, both read "txDone" (see c04ModelRes)
+	case ek >= 2 && ek <= 5:
+		// one shared sentinel stands for every failed COMMIT of the run: which COMMIT it was is pinned by the trace
+		for i, piece := range pieces {
+			if len(x.injVals) > 0 && piece == x.injVals[0].v.Error() && i < len(out) {
+				out[i] = "cfault"
+			}
+		}
+		return out
+	}
 	used := map[int]bool{}
 	for i, piece := range pieces {
 		for j, iv := range x.injVals {
